@@ -1,2 +1,159 @@
-(* C10 - A summary CSV reproduces the history it replaces.  (in progress) *)
-From ACB Require Import Model.Summary.
+(* C10 - A summary CSV reproduces the history it replaces.
+   Model: Model/Summary.v on top of the bookkeeping model
+   (Model/{Tx,Ledger,Sfl,DeltaList,App}.v).  Proofs: Proofs/SummaryProps.v. *)
+From Coq Require Import List NArith ZArith QArith Qcanon Bool.
+From ACB Require Import Base.Outcome Base.QcExtra Base.Arith Model.Tx Model.Ledger Model.Sfl
+     Model.DeltaList Model.App Model.Summary Proofs.SummaryProps.
+Import ListNotations.
+
+(* ------------------------------------------------------------------ the full statement
+   For every accepted history of a security, every date and both modes:
+   summary ++ (rows settling after the date) is accepted and reports every
+   later row (action, affiliate, date, share balance, cost base, capital gain,
+   superficial loss) as the full history does - exact arithmetic. *)
+Definition C10_full : Prop := forall latest annual rows,
+  history_ok exact rows = true -> roundtrip_ok exact latest annual rows = true.
+
+(* It does not hold of the code: three executable classes of (history, date,
+   mode), each with a kernel-checked witness that the check replays on the
+   implementation on every run (known findings).  The witnesses fail under
+   exact arithmetic and under rust_decimal rounding alike. *)
+Theorem C10_roundtrip_refuted :
+  exists latest annual rows, history_ok exact rows = true /\ roundtrip_ok exact latest annual rows = false.
+Proof. exists wit1_date, false, wit1. split; apply wit1_fails. Qed.
+Check C10_roundtrip_refuted :
+  exists latest annual rows, history_ok exact rows = true /\ roundtrip_ok exact latest annual rows = false.
+Print Assumptions C10_roundtrip_refuted.
+
+(* K_summary_buy_in_window: a loss sale that is not superficial in the full
+   history settles within 30 days after a generated summary purchase *)
+Theorem C10_K_summary_buy_in_window_witness :
+  history_ok exact wit1 = true /\ roundtrip_ok exact wit1_date false wit1 = false
+  /\ roundtrip_ok dec wit1_date false wit1 = false
+  /\ K_summary_buy_in_window exact wit1_date false wit1 = true.
+Proof. exact wit1_fails. Qed.
+Check C10_K_summary_buy_in_window_witness :
+  history_ok exact wit1 = true /\ roundtrip_ok exact wit1_date false wit1 = false
+  /\ roundtrip_ok dec wit1_date false wit1 = false
+  /\ K_summary_buy_in_window exact wit1_date false wit1 = true.
+Print Assumptions C10_K_summary_buy_in_window_witness.
+
+(* K_annual_sell_in_window: annual mode, an acquisition settles within 30 days
+   after a generated 1-January sale that realises a loss *)
+Theorem C10_K_annual_sell_in_window_witness :
+  history_ok exact wit2 = true /\ roundtrip_ok exact wit2_date true wit2 = false
+  /\ roundtrip_ok dec wit2_date true wit2 = false
+  /\ K_annual_sell_in_window exact wit2_date true wit2 = true
+  /\ K_summary_buy_in_window exact wit2_date true wit2 = false.
+Proof. exact wit2_fails. Qed.
+Check C10_K_annual_sell_in_window_witness :
+  history_ok exact wit2 = true /\ roundtrip_ok exact wit2_date true wit2 = false
+  /\ roundtrip_ok dec wit2_date true wit2 = false
+  /\ K_annual_sell_in_window exact wit2_date true wit2 = true
+  /\ K_summary_buy_in_window exact wit2_date true wit2 = false.
+Print Assumptions C10_K_annual_sell_in_window_witness.
+
+(* K_zero_balance_acb: a summarised affiliate holds no shares but a cost base
+   (an adjustment for shares it acquires after the date): no row is generated
+   for it and the adjustment is lost *)
+Theorem C10_K_zero_balance_acb_witness :
+  history_ok exact wit3 = true /\ roundtrip_ok exact wit3_date false wit3 = false
+  /\ roundtrip_ok dec wit3_date false wit3 = false
+  /\ K_zero_balance_acb exact wit3_date wit3 = true
+  /\ K_summary_buy_in_window exact wit3_date false wit3 = false.
+Proof. exact wit3_fails. Qed.
+Check C10_K_zero_balance_acb_witness :
+  history_ok exact wit3 = true /\ roundtrip_ok exact wit3_date false wit3 = false
+  /\ roundtrip_ok dec wit3_date false wit3 = false
+  /\ K_zero_balance_acb exact wit3_date wit3 = true
+  /\ K_summary_buy_in_window exact wit3_date false wit3 = false.
+Print Assumptions C10_K_zero_balance_acb_witness.
+
+(* The positive statement outside the classes.  NOT proved (it needs the
+   window scans of every later loss sale to see the same acquisitions and the
+   same end-of-window holdings in both runs); it is searched for
+   counterexamples by the check on every run.  What is proved is below. *)
+Definition C10_outside_known_full : Prop := forall latest annual rows,
+  history_ok exact rows = true ->
+  K_summary_buy_in_window exact latest annual rows = false ->
+  K_annual_sell_in_window exact latest annual rows = false ->
+  K_zero_balance_acb exact latest rows = false ->
+  roundtrip_ok exact latest annual rows = true.
+
+(* ------------------------------------------------------------------ C10_roundtrip_partial
+   (1) the row generated for an affiliate holding (shares > 0, cost base) is
+   the purchase of those shares at cost base / shares, and
+   (2) running the generated purchases alone - any number of affiliates, in
+   any order, registered or not - rebuilds exactly each affiliate's shares and
+   cost base (exact arithmetic): the state at the cut. *)
+Theorem C10_summary_row : forall af d,
+  holding_ok af (d_post d) ->
+  simple_summary exact af d = Ok [summary_buy (d_tx d) (d_sd d) af (d_post d)].
+Proof. exact simple_summary_exact. Qed.
+Check C10_summary_row : forall af d,
+  holding_ok af (d_post d) ->
+  simple_summary exact af d = Ok [summary_buy (d_tx d) (d_sd d) af (d_post d)].
+Print Assumptions C10_summary_row.
+
+Theorem C10_state_at_cut : forall like (hs : list hold_row),
+  hs <> [] ->
+  NoDup (map (fun h : hold_row => af_id (fst (fst h))) hs) ->
+  Forall (fun h : hold_row => holding_ok (fst (fst h)) (snd (fst h))) hs ->
+  exists ds,
+    run exact None (map (hold_tx like) hs) = (ds, None)
+    /\ map (fun d => (s_sh (d_post d), s_acb (d_post d))) ds
+       = map (fun h : hold_row => (s_sh (snd (fst h)), s_acb (snd (fst h)))) hs.
+Proof. exact state_at_cut. Qed.
+Check C10_state_at_cut : forall like (hs : list hold_row),
+  hs <> [] ->
+  NoDup (map (fun h : hold_row => af_id (fst (fst h))) hs) ->
+  Forall (fun h : hold_row => holding_ok (fst (fst h)) (snd (fst h))) hs ->
+  exists ds,
+    run exact None (map (hold_tx like) hs) = (ds, None)
+    /\ map (fun d => (s_sh (d_post d), s_acb (d_post d))) ds
+       = map (fun h : hold_row => (s_sh (snd (fst h)), s_acb (snd (fst h)))) hs.
+Print Assumptions C10_state_at_cut.
+
+(* ------------------------------------------------------------------ C10_annual_gains
+   Annual mode: a generated 1-share sale at (per-share cost + gain) with
+   commission [loss] out of a holding whose cost base is per-share cost x
+   shares realises exactly gain - loss (the year's net capital gain) and
+   leaves the per-share cost unchanged, so the base purchase of
+   (shares + number of years) at the per-share cost ends at the holding at the
+   cut.  (Before the superficial-loss rule is applied to the generated sale:
+   that application is class K_annual_sell_in_window.) *)
+Theorem C10_annual_gains : forall (pre : status) (aps gain loss : Qc),
+  (1 <= s_sh pre)%Qc -> (1 <= s_all pre)%Qc -> s_acb pre = Some (aps * s_sh pre)%Qc ->
+  (0 <= aps)%Qc -> (0 <= gain)%Qc -> (0 <= loss)%Qc ->
+  sell_core exact pre 1 (aps + gain) loss 1 1
+  = Ok {| sc_sh := (s_sh pre - 1)%Qc; sc_all := (s_all pre - 1)%Qc;
+          sc_acb := Some ((s_sh pre - 1) * aps)%Qc; sc_gain := Some (gain - loss)%Qc |}.
+Proof. exact annual_sale_identity. Qed.
+Check C10_annual_gains : forall (pre : status) (aps gain loss : Qc),
+  (1 <= s_sh pre)%Qc -> (1 <= s_all pre)%Qc -> s_acb pre = Some (aps * s_sh pre)%Qc ->
+  (0 <= aps)%Qc -> (0 <= gain)%Qc -> (0 <= loss)%Qc ->
+  sell_core exact pre 1 (aps + gain) loss 1 1
+  = Ok {| sc_sh := (s_sh pre - 1)%Qc; sc_all := (s_all pre - 1)%Qc;
+          sc_acb := Some ((s_sh pre - 1) * aps)%Qc; sc_gain := Some (gain - loss)%Qc |}.
+Print Assumptions C10_annual_gains.
+
+(* ------------------------------------------------------------------ non-vacuity *)
+(* outside the classes the round trip does hold on a neighbouring history (the
+   loss sale 31 days after the generated purchase), and three affiliates (one
+   registered) with fractional holdings satisfy the hypotheses of
+   C10_state_at_cut *)
+Definition ex_reg : aff := {| af_id := 1001; af_reg := true; af_dflt := true |}.
+Definition ex_hs : list hold_row := [
+  (default_aff, {| s_sh := wq 73 10; s_all := wq 0 1; s_acb := Some (wq 1001 7) |}, 737060%Z);
+  (ex_reg, {| s_sh := wq 5 1; s_all := wq 0 1; s_acb := None |}, 737100%Z);
+  (spouse_aff, {| s_sh := wq 1 3; s_all := wq 0 1; s_acb := Some (wq 0 1) |}, 737050%Z)].
+Example C10_nonvacuous :
+  (history_ok exact wit1_far = true /\ roundtrip_ok exact wit1_date false wit1_far = true
+   /\ roundtrip_ok dec wit1_date false wit1_far = true
+   /\ K_summary_buy_in_window exact wit1_date false wit1_far = false
+   /\ K_zero_balance_acb exact wit1_date wit1_far = false)
+  /\ (map (fun d => (s_sh (d_post d), s_acb (d_post d)))
+          (fst (run exact None (map (hold_tx (wrow 0 0 (wbuy 1 1) default_aff)) ex_hs)))
+      = [(wq 73 10, Some (wq 1001 7)); (wq 5 1, None); (wq 1 3, Some (wq 0 1))]
+      /\ snd (run exact None (map (hold_tx (wrow 0 0 (wbuy 1 1) default_aff)) ex_hs)) = None).
+Proof. split; [exact wit1_far_ok|]. vm_compute. split; reflexivity. Qed.
